@@ -138,6 +138,14 @@ func genConfig(rng *simcore.RNG, env *simcore.Env) simcore.Op {
 	}
 	gh := initH + rng.Intn(ln-2)
 	g0 := add(gh, 1+rng.Intn(2), rng.Range(1, maxN), "good", -1)
+	// validator updates returned exactly in the snapshot block, the one before, the one after
+	var forceUpd []int
+	for d := -1; d <= 2; d++ {
+		if h := gh + d; h >= initH && rng.Bool(0.35) {
+			forceUpd = append(forceUpd, h)
+		}
+	}
+	c["force_upd"] = forceUpd
 	if rng.Bool(0.5) {
 		h2 := initH + rng.Intn(ln-2)
 		f2 := 1 + rng.Intn(2)
@@ -478,7 +486,11 @@ func newSim(env *simcore.Env, cfg simcore.Op) simcore.Sim {
 		powers[i] = 10
 	}
 	s.chain = chaingen.New(chaingen.Opts{ChainID: "c14-chain", InitialHeight: initH, Powers: powers, Genesis: time.Now().Add(-3 * time.Hour).UTC()})
-	growChain(s.chain, simcore.NewRNG(cfg.U64("chain_seed")), ln, 5, float64(cfg.Int("churn"))/100)
+	force := map[int64]bool{}
+	for _, h := range cfg.Ints("force_upd") {
+		force[int64(h)] = true
+	}
+	growChain(s.chain, simcore.NewRNG(cfg.U64("chain_seed")), ln, 5, float64(cfg.Int("churn"))/100, force)
 	s.mux = newRPCMux(s.chain)
 
 	for _, o := range cfg.Subs("cat") {
@@ -929,7 +941,8 @@ func (s *sim) Close() {
 
 // growChain is chaingen.Chain.Grow with a block.max_bytes parameter change that always stays
 // above the evidence size bound (Grow's own draw can fall below it and make ApplyBlock fail).
-func growChain(c *chaingen.Chain, rng *simcore.RNG, n int, maxKeys int, churn float64) {
+// force lists heights whose block must carry a validator update that really changes the set.
+func growChain(c *chaingen.Chain, rng *simcore.RNG, n int, maxKeys int, churn float64, force map[int64]bool) {
 	for i := 0; i < maxKeys; i++ {
 		c.KnowKey(i)
 	}
@@ -945,6 +958,9 @@ func growChain(c *chaingen.Chain, rng *simcore.RNG, n int, maxKeys int, churn fl
 				pw = int64(rng.Range(1, 30))
 			}
 			sp.Txs = append(sp.Txs, chaingen.ValTx(rng.Intn(maxKeys), pw))
+		}
+		if force[h] {
+			sp.Txs = append(sp.Txs, chaingen.ValTx(int(h)%maxKeys, 31+h)) // a power no other draw produces
 		}
 		if rng.Bool(0.08) {
 			sp.Txs = append(sp.Txs, []byte(fmt.Sprintf("param:maxbytes:%d", 1200000+rng.Intn(1000000))))
